@@ -158,13 +158,13 @@ def examine(prop, r, mobs, mbits):
                 bad = pbit == "0" or (sbit == "0" and fixed)
                 if len(g) >= 9:
                     names = ["slot", "phase", "lost", "registries", "life-cycle", "map-books", "accounting", "flush", "wake-up",
-                             "cancelled-spawners-stopped", "snapshot-kept", "snapshot-taken", "want", "sched", "seal", "end-filed"]
+                             "cancelled-spawners-stopped", "snapshot-kept", "snapshot-taken", "want", "sched", "seal", "end-filed", "emptied"]
                     for idx in (3, 4, 5, 6, 7, 9, 10, 11, 12, 13):
                         if idx < len(g) and g[idx] == "0":
                             bad = True
                     if g[8] == "0" and fixed:
                         bad = True
-                    if (first_unlock is None or k < first_unlock) and (g[2] == "0" or (len(g) > 14 and g[14] == "0") or (len(g) > 15 and g[15] == "0")):
+                    if (first_unlock is None or k < first_unlock) and (g[2] == "0" or (len(g) > 14 and g[14] == "0") or (len(g) > 15 and g[15] == "0") or (len(g) > 16 and g[16] == "0")):
                         bad = True
                     detail = f"pool {pi} bits {g} (" + ",".join(n for n, c in zip(names, g) if c == "0") + ")"
                 else:
